@@ -2,6 +2,7 @@ import ScVerif.C09.MachineLemmas
 import ScVerif.C09.SendTimeout
 import ScVerif.C09.MapQueue
 import ScVerif.C09.Pipeline
+import ScVerif.C09.Include
 /-!
 # C09 — property theorems: lossy delivery preserves the folded view; slow readers never block writers
 
@@ -197,33 +198,42 @@ theorem C09_map_queue_refines (zero : Change ι μ) (ms : List (Move (Change ι 
     rfl
 
 /-- The three-stage pipeline of a lossy `Collection.Pull` (machine ▸ forwarder holding at most one
-event in hand ▸ consumer; `Pipeline.lean`), for every well-formed input stream and EVERY interleaving
-of recv / take / deliver: everything offered was accepted; what the consumer received, then the event
-in hand, then the pending changes fold to the view of everything received; the DELIVERED stream is a
-well-formed history (old values chain per id); and once nothing is in hand or pending the delivered
-stream folds to the view of everything received — for every id the consumer holds its latest value. -/
-theorem C09_pipeline_view (s0 : View ι μ) (ms : List (PMove (Change ι μ)))
+event in hand ▸ consumer; `Pipeline.lean`) WITH the forwarder's transform: `T`/`R` are any transform and
+view map with `Sim T R` (Include.lean) — the identity for a Pull without filter, and
+`includeChange f` / `restrict f` for `WithInclude f`, i.e. the merge output piped through
+`(*CollectionChange).include` as coded (both proved in `C09_include_sim`, PropsSubs.lean).  For every
+well-formed input stream and EVERY interleaving of recv / take / deliver: everything offered was accepted;
+what the consumer received, then the event in hand, then the pending changes as the transform will show
+them fold to the mapped view of everything received; the DELIVERED stream is a well-formed history of the
+mapped view (old values chain per id; an item moving out of the admitted set is a REMOVE, into it an ADD);
+and once nothing is in hand or pending the delivered stream folds to the mapped view of everything
+received — for every id the consumer holds its latest admitted value, and nothing the filter excludes. -/
+theorem C09_pipeline_view (T : Change ι μ → Option (Change ι μ)) (R : View ι μ → View ι μ)
+    (hsim : Sim T R) (s0 : View ι μ) (ms : List (PMove (Change ι μ)))
     (hw : WFHist s0 (pinputs ms)) :
-    let c := prun some PCfg.init ms
+    let c := prun T PCfg.init ms
     c.received = pinputs ms ∧
-    fold (c.delivered ++ c.inHand.toList ++ c.st.pending) s0 = fold c.received s0 ∧
-    WFHist s0 c.delivered ∧ WFHist s0 (c.delivered ++ c.inHand.toList ++ c.st.pending) ∧
-    (c.inHand = none → c.st.pending = [] → ∀ i, fold c.delivered s0 i = fold (pinputs ms) s0 i) := by
-  have h := PInv_run (T := some) (s0 := s0) ms (PInv_init some s0) (by simpa [PCfg.init] using hw)
-  have hrec : (prun some (PCfg.init : PCfg ι μ) ms).received = pinputs ms := by
+    fold (c.delivered ++ c.inHand.toList ++ c.st.pending.filterMap T) (R s0) = R (fold c.received s0) ∧
+    WFHist (R s0) c.delivered ∧
+    WFHist (R s0) (c.delivered ++ c.inHand.toList ++ c.st.pending.filterMap T) ∧
+    (c.inHand = none → c.st.pending = [] →
+        ∀ i, fold c.delivered (R s0) i = R (fold (pinputs ms) s0) i) := by
+  have h := PInv_run (T := T) (s0 := s0) ms (PInv_init T s0) (by simpa [PCfg.init] using hw)
+  have hrec : (prun T (PCfg.init : PCfg ι μ) ms).received = pinputs ms := by
     simp [prun_received, PCfg.init]
   have hout := h.out
-  rw [List.filterMap_some] at hout
   have hview := h.inv.view
   have hwf := h.inv.wf
   simp only at hview hwf
-  rw [← hout] at hview hwf
-  refine ⟨hrec, hview, ?_, hwf, ?_⟩
-  · exact (WFHist_append.mp (WFHist_append.mp hwf).1).1
+  obtain ⟨hwf', hview'⟩ := filterMap_sim hsim hwf
+  rw [hview, List.filterMap_append, ← hout] at hview'
+  rw [List.filterMap_append, ← hout] at hwf'
+  refine ⟨hrec, hview', ?_, hwf', ?_⟩
+  · exact (WFHist_append.mp (WFHist_append.mp hwf').1).1
   · intro hh hp i
-    rw [hh, hp] at hview
-    simp only [Option.toList_none, List.append_nil] at hview
-    rw [hview, hrec]
+    rw [hh, hp] at hview'
+    simp only [Option.toList_none, List.append_nil, List.filterMap_nil] at hview'
+    rw [hview', hrec]
 
 /-- The lossy `Value.Pull` pipeline (DropExcess slot ▸ forwarder with the `last`-value equivalence
 ▸ consumer), for ANY equivalence `E` (any function; `E last v` = "suppress v"), any seed, any message
